@@ -1,5 +1,6 @@
 """C02: check configuration (PROP) and MANIFEST texts (TEXT)."""
 PROP = dict(
+    tables=["C01"],
     n_quick=200, n_thorough=3000, audit=6, audit_maxlen=3000,
     rule="structured transactions and headers over C01's feature lattice (incl. dynafed headers with non-empty signblock witness) + repository vectors; for each, the "
          "harness applies every single-field modification (classified witness-only / non-witness) on the implementation and checks which change the id; the model "
